@@ -38,8 +38,19 @@
       was computed against the history's schema of step i-1, which is only *equivalent* to revision i-1's: the steps
       compose because the reference engine respects `TableSpec.equiv` — `exec_equiv`, all seventeen statement kinds,
       Proofs/ExecEquiv — and keeps table names unique (`exec_nodup`).
+    * `model_fingerprint` — **the fingerprint clause**: in the scope of `model_converges`, and when at every step the
+      tables two consecutive revisions share come first, in the same relative order, and the new ones after them
+      (`ChainOrdered`: `HashValue` lists the table digests in table order — C07 speaks of "the same tables in the same
+      order" — and the history lists a created table after the tables it already had), the fingerprint of the history
+      equals the fingerprint of the newest revision, for any digest functions.  The whole-schema theorem of C01 carries
+      the order of the tables (`namesAfter`, Proofs/TableOrder: a common table stays where it is, a created one goes to
+      the end, a dropped one leaves); `hash_of_schema` (C07) makes both values functions of the reference schemas; and
+      equivalent schemas listing their tables in the same order have the same value (`hashOf_of_equiv`).  Outside
+      `ChainOrdered` the clause is false of model and code alike (a revision that lists a new table before an old one
+      has a different fingerprint than the history that creates it last) — that is C07's order clause, not a defect.
 -/
 import SqlizeModel.Proofs.RoundsDown
+import SqlizeModel.Proofs.RoundsHash
 import SqlizeModel.Proofs.Rounds
 import SqlizeModel.Props.C01
 namespace Sqlize.C04
@@ -145,6 +156,16 @@ theorem model_down_returns (g : Globals) (hg : g.dialect = .mysql) (hio : g.igno
     ∃ h ds, histD g (revs.map (·.1)) = .ok (h, ds) ∧ ds.length = revs.length ∧ replay (lastDB revs) ds = some [] :=
   rounds_down_from_last g hg hio revs hrev hc hcd
 
+open Sqlize Sqlize.Spec in
+/-- the fingerprint of the history equals the fingerprint of the newest revision -/
+theorem model_fingerprint (H : String → String) (F : String → Int) (g : Globals) (hg : g.dialect = .mysql)
+    (hio : g.ignoreOrder = false) (p : List Stmt × Spec.DB) (older : List (List Stmt × Spec.DB))
+    (hrev : ∀ q ∈ p :: older, q.1.all Stmt.elemSafe = true ∧ q.1.all Stmt.plainOpts = true ∧ execAll false [] q.1 = some q.2)
+    (hchain : ChainOK (p :: older)) (hord : ChainOrdered (p :: older)) :
+    ∃ h mH mP v, histM g ((p :: older).map (·.1)) = .ok h ∧ ReaderMysql.run {} h = .ok mH ∧
+      ReaderMysql.run {} p.1 = .ok mP ∧ mH.hashWith H F g = .ok v ∧ mP.hashWith H F g = .ok v :=
+  rounds_fingerprint H F g hg hio p older hrev hchain hord
+
 -- non-vacuity of `model_converges` (a test of its conclusion on one chain, not the theorem): three revisions — the pair of
 -- `C01.exOldW` / `C01.exNewW` and a third that drops a table and an index again —; the history is computed, accepted, and
 -- equivalent to the newest revision's schema; the decidable hypotheses hold
@@ -168,5 +189,31 @@ open Sqlize Sqlize.Spec in
 example : ∃ h ds db3, histD {} [exRev3, C01.exNewW, C01.exOldW] = .ok (h, ds) ∧ execAll false [] exRev3 = some db3 ∧
     ds.length = 3 ∧ replay db3 ds = some [] :=
   ⟨_, _, _, by rfl, by rfl, by decide, by decide⟩
+
+-- non-vacuity of `model_fingerprint`: `C01.exOldW`, then its successor with the new table listed last (`exNewF`), then
+-- `exRev3` — the chain is `ChainOrdered`; as a test (not the theorem) the values under the real md5 agree at every step
+open Sqlize Sqlize.Spec in
+def exNewF : List Stmt :=
+  [.createTable "keep" 0 [{ name := "k", typ := "int(11)" }] ["k"],
+   .createTable "t" 0 [{ name := "z", typ := "text" }, { name := "a", typ := "int(11)", opts := [{ kind := .notNull }] },
+                       { name := "c", typ := "varchar(255)" }] [],
+   .createIndex "t" "i_c" ["c"] true "",
+   .createIndex "t" "i_z" ["z", "a"] false "",
+   .createTable "fresh" 0 [{ name := "id", typ := "int(11)", opts := [{ kind := .notNull }] }, { name := "n", typ := "text" },
+                           { name := "m", typ := "int(11)" }] ["id"],
+   .createIndex "fresh" "i_n" ["n"] false "",
+   .createIndex "fresh" "i_nm" ["m", "id"] true "HASH"]
+open Sqlize Sqlize.Spec in
+example : ∃ db1 db2 db3, execAll false [] C01.exOldW = some db1 ∧ execAll false [] exNewF = some db2 ∧
+    execAll false [] exRev3 = some db3 ∧ ChainOrdered [(exRev3, db3), (exNewF, db2), (C01.exOldW, db1)] :=
+  ⟨_, _, _, by rfl, by rfl, by rfl, by simp only [ChainOrdered, lastDB]; decide⟩
+#guard (do let h ← histM {} [exNewF, C01.exOldW]; let m ← ReaderMysql.run {} h; m.hashValue {}).toOption ==
+       (do let m ← ReaderMysql.run {} exNewF; m.hashValue {}).toOption
+#guard (do let h ← histM {} [exRev3, exNewF, C01.exOldW]; let m ← ReaderMysql.run {} h; m.hashValue {}).toOption ==
+       (do let m ← ReaderMysql.run {} exRev3; m.hashValue {}).toOption
+#guard (do let h ← histM {} [exRev3, exNewF, C01.exOldW]; let m ← ReaderMysql.run {} h; m.hashValue {}).toOption.isSome
+-- … and outside `ChainOrdered` the clause fails of the model (the new table listed first, the history creates it last)
+#guard (do let h ← histM {} [C01.exNewW, C01.exOldW]; let m ← ReaderMysql.run {} h; m.hashValue {}).toOption !=
+       (do let m ← ReaderMysql.run {} C01.exNewW; m.hashValue {}).toOption
 
 end Sqlize.C04
